@@ -411,12 +411,83 @@ def family_key(kty, form):
     return k.as_pem(is_private=True)
 
 
-def jose_call(api, arg, kty=None, form=None):
+HDR_MEMBERS = ["alg", "enc", "zip", "kid", "typ", "cty", "crit", "jwk", "jku", "x5c", "x5t", "epk", "apu", "apv", "iv", "tag", "p2s", "p2c", "b64", "skid"]
+HDR_VALUES = [5, None, [], {}, "", "é", True, 1.5, [1], {"a": 1}, ["x"], "A", "!!!"]
+FUZZ_ALGS = {"jws": [("HS256", "oct"), ("RS256", "RSA"), ("PS256", "RSA"), ("ES256", "EC"), ("EdDSA", "OKP")],
+             "jwe": [("dir", "oct16"), ("A128KW", "oct16"), ("A128GCMKW", "oct16"), ("RSA-OAEP", "RSA"), ("RSA1_5", "RSA"), ("ECDH-ES", "EC"), ("ECDH-ES+A128KW", "EC"),
+                     ("ECDH-ES", "OKPX"), ("ECDH-ES+A128KW", "OKPX")]}
+
+
+def hdr_fuzz_cases(tier):
+    out = []
+    for kind, algs in FUZZ_ALGS.items():
+        for alg, kty in algs:
+            for m in HDR_MEMBERS:
+                for vi, v in enumerate(HDR_VALUES):
+                    for ser in ("compact", "json"):
+                        if tier == "quick" and ser == "json" and (vi + len(m)) % 3:
+                            continue
+                        out.append({"t": "jose", "api": "hdr_fuzz", "kind": kind, "alg": alg, "kty": kty, "member": m, "value": v, "ser": ser, "arg": None})
+    return out
+
+
+def hdr_fuzz_call(c):
+    """a token made by the library, its (protected) header rewritten with one member replaced, handed back to the library"""
+    from authlib.jose import JsonWebSignature, JsonWebEncryption, OctKey
+    family_key("oct", "obj")
+    _FAMILY_KEYS.setdefault("oct16", OctKey.import_key(b"0123456789abcdef", {"kid": "k1"}))
+    key = _FAMILY_KEYS[c["kty"]]
+    def rewrite(seg):
+        h = json.loads(base64.urlsafe_b64decode(seg + "=" * (-len(seg) % 4)))
+        h[c["member"]] = c["value"]
+        return b64(json.dumps(h).encode())
+    if c["kind"] == "jws":
+        J = JsonWebSignature()
+        if c["ser"] == "compact":
+            t = J.serialize_compact({"alg": c["alg"], "kid": "k1"}, b"payload", key).decode()
+            a, b, s_ = t.split(".")
+            return lambda: J.deserialize_compact(".".join([rewrite(a), b, s_]), key)
+        o = J.serialize_json({"protected": {"alg": c["alg"]}, "header": {"kid": "k1"}}, b"payload", key)
+        variants = [dict(o, protected=rewrite(o["protected"])), dict(o, header=dict(o["header"], **{c["member"]: c["value"]}))]
+        return lambda: [J.deserialize_json(v, key) for v in variants]
+    J = JsonWebEncryption()
+    hdr = {"alg": c["alg"], "enc": "A128GCM"}
+    if c["ser"] == "compact":
+        t = J.serialize_compact(hdr, b"plaintext", key).decode()
+        parts = t.split(".")
+        return lambda: J.deserialize_compact(".".join([rewrite(parts[0])] + parts[1:]), key)
+    o = J.serialize_json({"protected": hdr, "unprotected": {"kid": "k1"}, "recipients": [{"header": {"x": "y"}}]}, b"plaintext", key)
+    v1 = dict(o, protected=rewrite(o["protected"]))
+    v2 = dict(o, unprotected=dict(o["unprotected"], **{c["member"]: c["value"]}))
+    v3 = dict(o, recipients=[dict(o["recipients"][0], header=dict(o["recipients"][0].get("header") or {}, **{c["member"]: c["value"]}))])
+    def run():
+        errs = []
+        for v in (v1, v2, v3):
+            try:
+                J.deserialize_json(v, key)
+            except (ValueError, ) as e:
+                errs.append(e)
+            except Exception as e:
+                from authlib.jose.errors import JoseError
+                from cryptography.exceptions import InvalidTag
+                from cryptography.hazmat.primitives.keywrap import InvalidUnwrap
+                if isinstance(e, (JoseError, InvalidTag, InvalidUnwrap)):
+                    errs.append(e)
+                else:
+                    raise
+        if errs:
+            raise errs[0]
+    return run
+
+
+def jose_call(api, arg, kty=None, form=None, case=None):
     from authlib.jose import JsonWebSignature, JsonWebEncryption, JsonWebToken, JsonWebKey, KeySet
     from authlib.jose.errors import JoseError
     key = JsonWebKey.import_key(JOSE_KEY)
     try:
-        if api == "alg_family":
+        if api == "hdr_fuzz":
+            hdr_fuzz_call(case)()
+        elif api == "alg_family":
             k = family_key(kty, form)
             if form in ("keyset", "jwks_dict"):
                 JsonWebToken(list(JsonWebSignature.ALGORITHMS_REGISTRY)).decode(arg, k)
@@ -579,6 +650,8 @@ def cases(rng, tier):
                         h["epk"] = epk
                     out.append({"t": "jose", "api": "alg_family_jwe", "kty": kty, "form": "obj",
                                 "arg": ".".join([b64(json.dumps(h).encode()), b64(b"k" * 24) if "KW" in alg else "", b64(b"0" * 12), b64(b"ct"), b64(b"t" * 16)])})
+    # every header member retyped, on tokens the library itself produced for each algorithm family
+    out += hdr_fuzz_cases(tier)
     # A*GCMKW: the key-wrapping iv and tag come from the header
     for extra in ({}, {"iv": 5}, {"iv": "!!!", "tag": "AA"}, {"iv": b64(b"0" * 12)}, {"iv": b64(b"0" * 12), "tag": 5}, {"iv": b64(b"0" * 12), "tag": None},
                   {"iv": None, "tag": b64(b"t" * 16)}, {"iv": [1], "tag": [2]}, {"iv": b64(b"0" * 3), "tag": b64(b"t" * 16)}, {"iv": b64(b"0" * 12), "tag": b64(b"t" * 3)},
@@ -650,7 +723,7 @@ def impl(c):
         return call_jwt_endpoint(c["ep"], c["token"])
     if t == "jose":
         ms.install_clock(); CLOCK.now = 1_000_000
-        return jose_call(c["api"], c["arg"], c.get("kty"), c.get("form"))
+        return jose_call(c["api"], c["arg"], c.get("kty"), c.get("form"), c)
     raise AssertionError(t)
 
 
@@ -757,6 +830,11 @@ def jose_documented(c, out):
         return True          # "no such key in the set": documented (:raise: ValueError) and relied upon by the client integrations to refetch the JWKS
     if c["api"] == "alg_family" and out["exc"] == "ValueError" and out["site"].startswith(("jose/rfc7517/", "jose/rfc7518/", "jose/rfc8037/")):
         return True          # the verification key cannot be used with the algorithm the header names: ValueError from the key import, as tests/jose/test_jws.py pins
+    if c["api"] == "hdr_fuzz":
+        lib = out["site"].startswith(("jose/", "common/encoding.py")) or out["site"] == "outside-library"
+        if c["kind"] == "jwe":
+            return out["exc"] in ("ValueError", "InvalidTag", "InvalidUnwrap", "InvalidKey") and lib
+        return out["exc"] == "ValueError" and out["site"].startswith(("jose/rfc7517/", "jose/rfc7518/", "jose/rfc8037/", "jose/rfc7519/jwt.py:load_key"))
     if c["api"].startswith(("jwe", "alg_family_jwe")) and out["exc"] in ("ValueError", "InvalidTag", "InvalidUnwrap", "InvalidKey") and (
             out["site"].startswith(("jose/rfc7518/", "jose/drafts/", "jose/rfc8037/") + (("jose/rfc7517/", "common/encoding.py") if c["api"] == "alg_family_jwe" else ())) or out["site"] == "outside-library"):
         return True          # decryption failures: tests/jose/test_jwe.py asserts ValueError / InvalidUnwrap
